@@ -7,6 +7,17 @@ CLAIMS = {
              text="Unbounded theorems about the model's address functions for every shape, pattern, L and block count; the model's tables and addresses are compared exactly with the real containers on all patterns n<=3/4 and all dense shapes.",
              note=TB),
 }
+CLAIMS.update({
+ "C01": dict(category="proof", technique="Lean 4 theorems (mass-action law of the table-driven forcing kernel by induction over the mechanism; cursor synchronisation; frame; bounds) + bit-exact differential harness + exact-rational oracle",
+             text="For every mechanism, name map and state the model's forcing kernel equals the mass-action sum (Field theorem), touches nothing else (frame theorem) and its tables are the resolved reactions in order (decode theorems). The C++ kernel (row-major and grouped layouts, partial groups) is compared bit-for-bit with the model and against the exact rate law.",
+             note=TB + " The grouped (vector) C++ kernel is tied to the per-cell model by execution on all layouts/cell counts generated, not by a theorem about the lane loops."),
+ "C08": dict(category="proof", technique="translator regenerates the coefficient tables as exact rationals from the header each run; Hairer-Wanner order conditions, row sums and R(inf) decided by `decide +kernel`; compiled constants cross-checked against the translator",
+             text="The algebraic half of the property (consistency/order of the five tables, embedded order, row sums, stability at infinity, ros2 closed form) is a kernel-checked fact about the generated constants, re-proved whenever the header changes. The accuracy sentence is measured only (backward Euler linear map), hence partial.",
+             note=TB + " Partial: the global-error claim for adaptive integration is not proved."),
+ "C09": dict(category="proof", technique="Lean 4 theorem: w.S = 0 implies the weighted sum of the forcing vanishes (from the C01 mass-action theorem) + conservation measured on real solves with planted invariants",
+             text="Exact-arithmetic conservation of every linear invariant by the forcing kernel for all mechanisms; the rounded form over whole solves (both integrators, all parameter sets, all layouts) is measured against a tolerance.",
+             note=TB + " Partial: conservation through the linear solves and stage combinations is measured, and proved only at the level of the forcing (w.f(y) = 0)."),
+})
 NOT_APPLICABLE = {}
 _ALL = ["C%02d" % i for i in range(1, 21)]
 for _p in _ALL:
